@@ -247,12 +247,12 @@ def gen(rng, tier):
     # buffers drain) keep coming: the LED loop sits INSIDE a frame, blocked in its write, when the stream ends with notes held.  The
     # unsafe window of a disconnect (tens of microseconds per 10 ms cycle otherwise) is stretched to hundreds of milliseconds, so
     # whether a disconnect landing inside a frame is handled safely no longer depends on a lucky close offset.  The daemon resumes
-    # 350 ms after the close, well inside the return bound.
+    # 150 ms after the close, well inside the return bound.
     # (own PRNG stream, appended after the others: the scenarios drawn from `rng` are what they were before this corpus existed)
     rng2 = random.Random(0x5716 + n)
     for off_ms in ((3000,) if tier == "quick" else (2500, 3000, 4000)):
         d = gen_device(rng2, "led")
-        d.update({"stall_ms": off_ms + 350, "pad_leds": 6000, "close_us": off_ms * 1000, "midi_stream": False})
+        d.update({"stall_ms": off_ms + 150, "pad_leds": 6000, "close_us": off_ms * 1000, "midi_stream": False})
         scenarios.append({"devices": [d], "tag": "corpus-stalled-server"})
     return scenarios
 
